@@ -385,6 +385,9 @@ func GenBankParser(state *pars.State, result *pars.Result) error {
 
 	locus := string(result.Children[1].Token)
 	length := result.Children[2].Value.(int)
+	if length < 0 || int64(length) > 1<<40 {
+		return pars.NewError("sequence length out of range", state.Position())
+	}
 	molecule, err := gts.AsMolecule(string(result.Children[3].Token))
 	if err != nil {
 		return pars.NewError(err.Error(), state.Position())
